@@ -10,7 +10,7 @@ from vfacts import walk, strip, ancestors
 RULE = 'INIT'
 # std functions whose T&& parameters bind lvalues by reference but only copy their value
 VALUE_FORWARDERS = {'std::make_pair', 'std::make_tuple', 'std::forward', 'std::min', 'std::max'}
-FLOOR = 40
+FLOOR = 25
 
 
 def lambda_of(n):
